@@ -45,6 +45,15 @@ struct AllocScope {
   long count() const { return g_alloc_count - before; }
 };
 
+// RAII guard placed at the top of a pure-library thunk: every malloc/new made while the thunk runs is an allocation made by
+// the library (thunks only move data in and out of Fastor objects with std::copy); the engine turns a non-zero tally into a failure
+extern volatile long g_thunk_alloc_events;
+struct ArmedThunk {
+  long before; int was;
+  ArmedThunk() : before(g_alloc_count), was(g_alloc_armed) { g_alloc_armed = 1; }
+  ~ArmedThunk() { g_thunk_alloc_events = g_thunk_alloc_events + (g_alloc_count - before); g_alloc_armed = was; }
+};
+
 // keep a value alive / opaque to the optimiser
 template <class T> inline void opaque(T &x) { asm volatile("" : : "r,m"(&x) : "memory"); }
 
